@@ -1,4 +1,5 @@
 (* Proofs for Model/Public.v (C31, conversion half). *)
+From Coq Require Import String.
 From UV Require Import Base.Common Model.Public.
 Open Scope N_scope.
 
